@@ -95,6 +95,16 @@ pub fn typed_statements() -> Vec<String> {
         "INSERT INTO t VALUES ( 99999999999 , 1 , 'x' )".into(),
         "INSERT INTO t VALUES ( 1.5 , 1 , 'x' )".into(),
         "INSERT INTO t VALUES ( NULL , NULL , NULL )".into(),
+        // statements that fail on a LATER row or operand, after earlier rows have been written
+        "INSERT INTO t VALUES ( 20 , 1 , 'p' ) , ( 21 , 1 , 'q' ) , ( 22 , 1 , NULL )".into(),
+        "INSERT INTO t VALUES ( 20 , 1 , 'p' ) , ( 21 , 1 , 'q' ) , ( 1 , 1 , 'dup' )".into(),
+        "INSERT INTO t VALUES ( 20 , 1 , 'p' ) , ( NULL , 1 , 'q' )".into(),
+        "INSERT INTO t VALUES ( 20 , 1 , 'p' ) , ( 21 , 1 , 'q' ) , ( 'a' , 1 , 'r' )".into(),
+        "INSERT INTO t VALUES ( 20 , 1 , 'p' ) , ( 21 , 1 / 0 , 'q' )".into(),
+        "UPDATE t SET k = 1".into(),
+        "UPDATE t SET s = NULL WHERE k >= 3".into(),
+        "UPDATE t SET v = 10 / ( k - 4 )".into(),
+        "DELETE FROM t WHERE 10 / ( k - 4 ) > 0".into(),
         "INSERT INTO t ( nosuch ) VALUES ( 1 )".into(),
         "INSERT INTO nosuch VALUES ( 1 )".into(),
         "UPDATE t SET nosuch = 1".into(),
@@ -394,7 +404,20 @@ pub fn worker(params: &Value, case: &Value) -> Value {
     let mut rep = ChunkReport::default();
     let mut fail = |rep: &mut ChunkReport, sql: &str, m: String| {
         if rep.failures.len() < 8 {
-            let id = if m.contains("PANIC") || m.contains("panic") { trigger_of(sql).filter(|t| listed.iter().any(|l| l == t)) } else { None };
+            let up = sql.trim_start().to_ascii_uppercase();
+            let state_changed = m.contains("but the table changed") || m.contains("sees different data");
+            let shape: Option<&str> = if up.starts_with("UPDATE") && state_changed {
+                // UPDATE is applied in place and never undone (C03 KF-update-in-place): a failing UPDATE keeps the
+                // rows it had already changed
+                Some("KT-failed-update-keeps-changed-rows")
+            } else if up.starts_with("INSERT") && m.contains("of a session") && m.contains("sees different data") {
+                // no statement-level rollback inside an explicit transaction: the rows written before the failing
+                // row stay visible to the session (and are committed with it)
+                Some("KT-failed-insert-in-session-keeps-earlier-rows")
+            } else {
+                None
+            };
+            let id = if m.contains("PANIC") || m.contains("panic") { trigger_of(sql).filter(|t| listed.iter().any(|l| l == t)) } else { shape.filter(|t| listed.iter().any(|l| l == t)) };
             rep.failures.push(match id {
                 Some(id) => format!("{id} ## `{}`: {m}", short(sql)),
                 None => format!("`{}`: {m}", short(sql)),
